@@ -470,6 +470,30 @@ pub fn check_tree(ts: &TreeSched, st: &mut Stats) -> Result<(), String> {
         }
         st.label("tree level: driver path (process/finish)");
     }
+    // every chunk queued first, then one feed loop (look-ahead keywords may span many buffers)
+    if ts.inject.is_empty() {
+        let p = crate::sinks::drive::make_parser(ModelDom::new(), &ts.tree.cfg);
+        for c in &ts.tree.chunks {
+            p.input_buffer.push_back(tendril::StrTendril::from(c.as_str()));
+        }
+        let mut guard = 0;
+        while !matches!(p.tokenizer.feed(&p.input_buffer), markup5ever::TokenizerResult::Done) {
+            guard += 1;
+            if guard > 1_000_000 {
+                return Err("feed() keeps suspending".into());
+            }
+        }
+        use tendril::TendrilSink;
+        let d = p.finish();
+        let c = model_canon(&d, DOC, CanonOpts::default());
+        if c != b {
+            return Err(format!(
+                "tree with all chunks queued before the first feed() differs from the one-piece run: {}\n chunks {:?}",
+                first_diff(&b, &c),
+                ts.tree.chunks
+            ));
+        }
+    }
     // RcDom too
     let (r, _, _) = drive_sched(RcDom::default(), ts, &ts.tree.chunks, &ts.inject);
     let (r1, _, _) = drive_sched(RcDom::default(), &one, &[fed.clone()], &[]);
